@@ -16,6 +16,7 @@ import (
 	"fmt"
 	"hash/fnv"
 	"os"
+	"os/exec"
 	"runtime"
 	"runtime/pprof"
 	"strconv"
@@ -239,6 +240,12 @@ func c03(c *Ctx) {
 	if err != nil || len(missing) > 0 || len(stale) > 0 {
 		viol(c, Violation{Signature: "C03/registry", What: "the registry of decoders (lib.C03Types) does not match protocol/model: every type with a Parse method must be listed",
 			Input: "c03p ? 2 0 -", Observed: fmt.Sprintf("missing=%v stale=%v err=%v", missing, stale, err), Required: "registry = source"})
+	}
+	// the spare-capacity models of the locality theorems must be what bin/gen_total_cap produces from the current
+	// cap = len models (Model/Total_cap.v, Total_cap2.v are generated text)
+	if out, err := exec.Command("/verif/bin/gen_total_cap", "--check").CombinedOutput(); err != nil {
+		viol(c, Violation{Signature: "C03/cap-models", What: "coq/Model/Total_cap*.v are not what bin/gen_total_cap generates from the current models",
+			Input: "c03p ? 2 0 -", Observed: Trunc(string(out)+" "+err.Error(), 400), Required: "bin/gen_total_cap --check exits 0"})
 	}
 	nvalid, nmut, nfree := 4, 40, 24
 	bvals := []int{0, 1, 2, 3, 4, 5, 7, 8, 9, 15, 16, 31, 32, 36, 127, 128, 220, 240, 254, 255}
